@@ -792,6 +792,26 @@ class Runner:
     def known(self, prop, msg, i):
         self.stats.setdefault("known", []).append((prop, msg, i))
 
+    # closed-form probe -------------------------------------------------------------------------
+    def do_probe(self, i, st, before):
+        """compare the outcome distribution of one subsystem (specification and implementation) with a
+        closed form supplied by the program (used for the Mach-Zehnder sweep of C11)"""
+        sid = st["targets"][0]
+        want = np.array(st["expect"], dtype=float)
+        p = self.spec_probs(sid)
+        n = max(len(p), len(want))
+        p = np.pad(p, (0, n - len(p)))
+        want2 = np.pad(want, (0, n - len(want)))
+        if np.abs(p - want2).max() > 1e-9:
+            self.findings.append(Finding(st.get("prop", "C11"), f"specification gives {np.round(p, 9).tolist()} for subsystem {sid}, closed form {want.tolist()} ({st.get('note', '')})", i))
+        sids, dims, rho = joint(self.w)
+        k = sids.index(sid)
+        d = np.real(np.diag(rho)).reshape(dims)
+        marg = d.sum(axis=tuple(a for a in range(len(dims)) if a != k)) if len(dims) > 1 else d
+        marg = np.pad(marg, (0, max(0, n - len(marg))))[:n]
+        if np.abs(marg - want2).max() > 1e-7:
+            self.findings.append(Finding(st.get("prop", "C11"), f"implementation gives {np.round(marg, 7).tolist()} for subsystem {sid}, closed form {want.tolist()} ({st.get('note', '')})", i))
+
     # resize ------------------------------------------------------------------------------------
     def do_resize(self, i, st, before):
         w = self.w
